@@ -327,19 +327,19 @@ Section PathFacts.
       + bind_step H; [gc H|discriminate].
       + bind_step H; [gc H|discriminate].
     - destruct Hok as (Hk & Hv & Hc).
-      bind_step H; [exfalso; eapply pre_build_err; eauto|].
-      bind_step H; [exfalso; eapply pre_build_err; eauto|].
-      bind_step H; [exfalso; eapply pre_build_err; eauto|].
+      bind_step H; [exfalso; eapply pre_build_err; [|exact H]; assumption|].
+      bind_step H; [exfalso; eapply pre_build_err; [|exact H]; assumption|].
+      bind_step H; [exfalso; eapply pre_build_err; [|exact H]; assumption|].
       bind_step H; [gc H|].
-      bind_step H; [eapply value_and_err; eauto|discriminate].
+      bind_step H; [eapply value_and_err; [|exact H]; assumption|discriminate].
     - destruct Hok as (Hk & Hv & Hc).
-      bind_step H; [exfalso; eapply pre_build_err; eauto|].
-      bind_step H; [exfalso; eapply pre_build_err; eauto|].
-      bind_step H; [exfalso; eapply pre_build_err; eauto|].
+      bind_step H; [exfalso; eapply pre_build_err; [|exact H]; assumption|].
+      bind_step H; [exfalso; eapply pre_build_err; [|exact H]; assumption|].
+      bind_step H; [exfalso; eapply pre_build_err; [|exact H]; assumption|].
       bind_step H; [gc H|].
-      bind_step H; [eapply value_and_err; eauto|discriminate].
+      bind_step H; [eapply value_and_err; [|exact H]; assumption|discriminate].
     - destruct Hok as (Hk & Hi & Hv & Hlc & Hmc & Hc).
-      do 6 (bind_step H; [exfalso; eapply pre_build_err; eauto|]).
+      do 6 (bind_step H; [exfalso; eapply pre_build_err; [|exact H]; assumption|]).
       bind_step H; [gc H|].
       bind_step H; [gc H|].
       bind_step H; [gc H|discriminate].
@@ -381,3 +381,347 @@ Section PathFacts.
     right. eapply apply_mods_err; eauto.
   Qed.
 End PathFacts.
+
+(* ------------------------------------------------------------------ *)
+(* nesting depth of a value (keys included)                            *)
+
+Definition lmax (l : list nat) : nat := fold_right Nat.max 0 l.
+
+Fixpoint vdepth (v : pyval) : nat :=
+  match v with
+  | VList l | VTuple l => S (lmax (map vdepth l))
+  | VDict d => S (lmax (map (fun kv => match kv with (k, x) => Nat.max (vdepth k) (vdepth x) end) d))
+  | _ => 0
+  end.
+
+Definition ldepth (l : list pyval) : nat := lmax (map vdepth l).
+Definition ddepth (d : list (pyval * pyval)) : nat :=
+  lmax (map (fun kv => match kv with (k, x) => Nat.max (vdepth k) (vdepth x) end) d).
+
+Lemma vdepth_list l : vdepth (VList l) = S (ldepth l). Proof. reflexivity. Qed.
+Lemma vdepth_tuple l : vdepth (VTuple l) = S (ldepth l). Proof. reflexivity. Qed.
+Lemma vdepth_dict d : vdepth (VDict d) = S (ddepth d). Proof. reflexivity. Qed.
+
+Lemma ldepth_cons x l : ldepth (x :: l) = Nat.max (vdepth x) (ldepth l). Proof. reflexivity. Qed.
+Lemma ddepth_cons k x d : ddepth ((k, x) :: d) = Nat.max (Nat.max (vdepth k) (vdepth x)) (ddepth d).
+Proof. reflexivity. Qed.
+
+Lemma ldepth_in x l : In x l -> vdepth x <= ldepth l.
+Proof. induction l as [|y l IH]; intros []; rewrite ldepth_cons; [subst; lia | specialize (IH H); lia]. Qed.
+Lemma ddepth_in k x d : In (k, x) d -> vdepth k <= ddepth d /\ vdepth x <= ddepth d.
+Proof.
+  induction d as [|[k' x'] d IH]; intros []; rewrite ddepth_cons.
+  - injection H as -> ->. lia.
+  - specialize (IH H). lia.
+Qed.
+Lemma ddepth_app d1 d2 : ddepth (d1 ++ d2) = Nat.max (ddepth d1) (ddepth d2).
+Proof. induction d1 as [|[k x] d1 IH]; [reflexivity|]. cbn [app]. rewrite !ddepth_cons, IH. lia. Qed.
+
+Lemma mapM_err {A B} (P : exc -> Prop) (f : A -> res B) : forall l e,
+  (forall x e, In x l -> f x = Err e -> P e) -> mapM f l = Err e -> P e.
+Proof.
+  induction l as [|x l IH]; intros e Hf H; cbn [mapM] in H; [discriminate|].
+  bind_step H; [eapply Hf; [left; reflexivity|exact H]|].
+  bind_step H; [|discriminate]. eapply IH; [|exact H]. intros y e' Hy. apply Hf. right. exact Hy.
+Qed.
+
+(* ------------------------------------------------------------------ *)
+(* c. the condition parser                                              *)
+
+Section SpecFacts.
+  Variable T : tables.
+  Variable X : spec_tables.
+  Hypothesis HT : tables_ok T = true.
+
+  Lemma to_type_err v e : to_type X v = Err e -> e = MalformedCond \/ e = TypeError.
+  Proof.
+    unfold to_type. intros H.
+    destruct v; repeat match type of H with context [match ?x with _ => _ end] => destruct x end;
+      try discriminate; injection H as <-; auto.
+  Qed.
+
+  Lemma to_type_depth v v' : to_type X v = Ok v' -> vdepth v' = 0.
+  Proof.
+    unfold to_type. intros H.
+    destruct v; repeat match type of H with context [match ?x with _ => _ end] => destruct x end;
+      try discriminate; injection H as <-; reflexivity.
+  Qed.
+
+  Lemma mapM_to_type_depth : forall l l', mapM (to_type X) l = Ok l' -> ldepth l' = 0.
+  Proof.
+    induction l as [|x l IH]; intros l' H; cbn [mapM] in H.
+    - injection H as <-. reflexivity.
+    - bind_step H. bind_step H. injection H as <-.
+      rewrite ldepth_cons, (to_type_depth _ _ Ha), (IH _ Ha0). reflexivity.
+  Qed.
+
+  Lemma convert_types_err v e : convert_types X v = Err e -> e = MalformedCond \/ e = TypeError.
+  Proof.
+    unfold convert_types. intros H. destruct v; try (eapply to_type_err; exact H).
+    bind_step H; [|discriminate].
+    eapply (mapM_err (fun e => e = MalformedCond \/ e = TypeError)); [|exact H].
+    intros y e' _. apply to_type_err.
+  Qed.
+
+  Lemma convert_types_depth v v' : convert_types X v = Ok v' -> vdepth v' <= vdepth v.
+  Proof.
+    unfold convert_types. intros H.
+    destruct v; try (rewrite (to_type_depth _ _ H); lia).
+    bind_step H. injection H as <-. rewrite !vdepth_list, (mapM_to_type_depth _ _ Ha). lia.
+  Qed.
+
+  Lemma class_pre_err k pre e : class_pre T k pre = Err e -> e = MalformedCond.
+  Proof.
+    unfold class_pre. intros H.
+    repeat match type of H with context [match ?x with _ => _ end] => destruct x end; congruence.
+  Qed.
+
+  Lemma class_pre_ok k pre k' : class_pre T k pre = Ok k' -> exists name, find_class (t_classes T) name = Some k'.
+  Proof.
+    unfold class_pre. intros H.
+    destruct (if String.eqb pre "length" then k_length k else if String.eqb pre "dtype" then k_dtype k else None) as [name|];
+      [|discriminate].
+    destruct (find_class (t_classes T) name) eqn:E; [|discriminate]. injection H as <-. eauto.
+  Qed.
+
+  Section CondFacts.
+    Variable A : Type.
+    Variable lit : pyval -> A.
+    Variable mkpath : pathterm pyval -> A.
+    Variable inert : pathterm pyval -> pyval.
+    Variable path_from_spec : pyval -> res (pathterm pyval + pyval).
+    Variable P : exc -> Prop.
+    Hypothesis P_type : P TypeError.
+    Hypothesis P_cond : P MalformedCond.
+
+    Lemma try_path_err v e : try_path path_from_spec v = Err e -> path_from_spec v = Err e.
+    Proof.
+      unfold try_path. destruct (path_from_spec v) as [[p|d]|e']; try discriminate.
+      destruct e'; congruence.
+    Qed.
+
+    Lemma coerce_items_err : forall l e,
+      (forall u e, In u l -> path_from_spec u = Err e -> P e) ->
+      coerce_items path_from_spec l = Err e -> P e.
+    Proof.
+      induction l as [|v r IH]; intros e Hp H; cbn [coerce_items] in H; [discriminate|].
+      bind_step H; [apply try_path_err in H; eapply Hp; [left; reflexivity|exact H]|].
+      bind_step H; [|discriminate]. eapply IH; [|exact H]. intros u e' Hu. apply Hp. right. exact Hu.
+    Qed.
+
+    Lemma coerce_kvs_err : forall d e,
+      (forall k u e, In (k, u) d -> path_from_spec u = Err e -> P e) ->
+      coerce_kvs path_from_spec d = Err e -> P e.
+    Proof.
+      induction d as [|[k v] r IH]; intros e Hp H; cbn [coerce_kvs] in H; [discriminate|].
+      bind_step H; [apply try_path_err in H; eapply Hp; [left; reflexivity|exact H]|].
+      bind_step H; [|discriminate]. eapply IH; [|exact H]. intros k' u e' Hu. apply (Hp k'). right. exact Hu.
+    Qed.
+
+    Lemma coerce_err v e :
+      (forall u e, vdepth u <= vdepth v -> path_from_spec u = Err e -> P e) ->
+      coerce path_from_spec v = Err e -> P e.
+    Proof.
+      intros Hp H. destruct v; cbn [coerce] in H; try discriminate.
+      - bind_step H; [|discriminate]. eapply coerce_items_err; [|exact H].
+        intros u e' Hu. apply Hp. rewrite vdepth_list. apply ldepth_in in Hu. lia.
+      - bind_step H.
+        + eapply coerce_items_err; [|exact H].
+          intros u e' Hu. apply Hp. rewrite vdepth_tuple. apply ldepth_in in Hu. lia.
+        + destruct (existsb _ a); [injection H as <-; exact P_type | discriminate].
+      - destruct (path_from_spec (VDict d)) as [[p|d']|e'] eqn:E.
+        + discriminate.
+        + destruct d'; discriminate.
+        + assert (He : P e') by (eapply Hp; [|exact E]; lia).
+          destruct e'; try (injection H as <-; exact He).
+          bind_step H; [|discriminate]. eapply coerce_kvs_err; [|exact H].
+          intros k u e' Hu. apply Hp. rewrite vdepth_dict. apply ddepth_in in Hu. lia.
+    Qed.
+
+    Lemma kw_of_err : forall items e, kw_of A lit mkpath items = Err e -> e = TypeError.
+    Proof.
+      induction items as [|[k x] r IH]; intros e H; cbn [kw_of] in H; [discriminate|].
+      destruct k; try congruence. bind_step H; [eauto|discriminate].
+    Qed.
+
+    Lemma dispatch_err c v b e : dispatch A lit mkpath inert c v b = Err e -> e = MalformedCond \/ e = TypeError.
+    Proof.
+      unfold dispatch. intros H.
+      repeat match type of H with
+             | (if ?c then _ else _) = _ => destruct c
+             end; try discriminate.
+      all: destruct v; try (injection H as <-; auto; fail); try discriminate.
+      all: try (bind_step H; [right; eapply kw_of_err; exact H|discriminate]).
+      all: destruct is_tuple; try discriminate; injection H as <-; auto.
+    Qed.
+
+    Lemma pre_sel_err (b : bool) k0 pre spec_val e :
+      (if b then
+         let* v' := (if String.eqb pre "dtype" then convert_types X spec_val else Ok spec_val) in
+         let* k' := class_pre T k0 pre in Ok (k', v')
+       else Ok (k0, spec_val)) = Err e -> e = MalformedCond \/ e = TypeError.
+    Proof.
+      destruct b; [|discriminate]. intros H.
+      bind_step H; [destruct (String.eqb pre "dtype"); [eapply convert_types_err; exact H|discriminate]|].
+      bind_step H; [left; eapply class_pre_err; exact H|discriminate].
+    Qed.
+
+    Lemma pre_sel_ok (b : bool) name0 k0 pre spec_val k v1 :
+      find_class (t_classes T) name0 = Some k0 ->
+      (if b then
+         let* v' := (if String.eqb pre "dtype" then convert_types X spec_val else Ok spec_val) in
+         let* k' := class_pre T k0 pre in Ok (k', v')
+       else Ok (k0, spec_val)) = Ok (k, v1) ->
+      (exists name, find_class (t_classes T) name = Some k) /\ vdepth v1 <= vdepth spec_val.
+    Proof.
+      intros Hk0 H. destruct b.
+      - bind_step H. bind_step H. injection H as <- <-. split; [eapply class_pre_ok; exact Ha0|].
+        destruct (String.eqb pre "dtype"); [eapply convert_types_depth; exact Ha|injection Ha as <-; lia].
+      - injection H as <- <-. split; [eauto|lia].
+    Qed.
+
+    Lemma parse_leaf_err key spec_val e :
+      (forall u e, vdepth u <= vdepth spec_val -> path_from_spec u = Err e -> P e) ->
+      parse_leaf T X A lit mkpath inert path_from_spec key spec_val = Err e -> P e.
+    Proof.
+      intros Hp H. unfold parse_leaf in H. cbv zeta in H.
+      destruct (assoc_str _ (sx_datum_types X)) as [cls_name|]; [|injection H as <-; exact P_cond].
+      match type of H with (if ?c then _ else _) = _ => destruct c end; [injection H as <-; exact P_cond|].
+      destruct (find_class (t_classes T) cls_name) as [k0|] eqn:Ek0; [|injection H as <-; exact P_cond].
+      bind_step H; [apply pre_sel_err in H as [->| ->]; assumption|].
+      destruct a as [k v1]. eapply pre_sel_ok in Ha as [[name Hk] Hd1]; [|exact Ek0].
+      bind_step H.
+      { match type of H with (if ?c then _ else _) = _ => destruct c end; [|discriminate].
+        apply convert_types_err in H as [->| ->]; assumption. }
+      assert (Hd2 : vdepth a <= vdepth v1).
+      { match type of Ha with (if ?c then _ else _) = _ => destruct c end;
+          [eapply convert_types_depth; exact Ha | injection Ha as <-; lia]. }
+      clear Ha.
+      match type of H with match find_ctor T k ?call with _ => _ end = _ => destruct (find_ctor T k call) as [c|] eqn:Ec end;
+        [|injection H as <-; exact P_cond].
+      bind_step H; [eapply coerce_err; [|exact H]; intros u e' Hu; apply Hp; lia|].
+      bind_step H; [apply dispatch_err in H as [->| ->]; assumption|].
+      destruct a1 as [pos kw].
+      bind_step H; [|discriminate].
+      eapply build_leaf_err_found in H; [subst; exact P_type | exact HT | exact Hk | exact Ec].
+    Qed.
+
+    Definition wfres (p : dslc A * cond A) : Prop := build T lit (fst p) = Ok (snd p).
+
+    Lemma parse_leaf_wf key spec_val p :
+      parse_leaf T X A lit mkpath inert path_from_spec key spec_val = Ok p -> wfres p.
+    Proof.
+      intros H. unfold parse_leaf in H. cbv zeta in H.
+      destruct (assoc_str _ (sx_datum_types X)) as [cls_name|]; [|discriminate].
+      match type of H with (if ?c then _ else _) = _ => destruct c end; [discriminate|].
+      destruct (find_class (t_classes T) cls_name) as [k0|] eqn:Ek0; [|discriminate].
+      bind_step H. destruct a as [k v1]. bind_step H.
+      match type of H with match find_ctor T k ?call with _ => _ end = _ => destruct (find_ctor T k call) as [c|] eqn:Ec end;
+        [|discriminate].
+      bind_step H. bind_step H. destruct a1 as [pos kw]. bind_step H. injection H as <-.
+      unfold wfres. cbn [fst snd build]. rewrite Ha3. reflexivity.
+    Qed.
+
+    Section StepFacts.
+      Variable self : pyval -> res (dslc A * cond A).
+
+      Lemma fold_err o : forall items acc e,
+        (forall i e, In i items -> self i = Err e -> P e) ->
+        (fix fold (items : list pyval) (acc : dslc A * cond A) : res (dslc A * cond A) :=
+           match items with
+           | [] => Ok acc
+           | i :: r =>
+               let* (ti, ci) := self i in
+               let* c := mk_bin o (snd acc) ci in
+               fold r (DBin o (fst acc) ti, c)
+           end) items acc = Err e -> P e.
+      Proof.
+        induction items as [|i r IH]; intros acc e Hs H; [discriminate|].
+        bind_step H; [eapply Hs; [left; reflexivity|exact H]|]. destruct a as [ti ci].
+        bind_step H; [apply mk_bin_err in H; subst; exact P_type|].
+        eapply IH; [|exact H]. intros j e' Hj. apply Hs. right. exact Hj.
+      Qed.
+
+      Lemma fold_wf o : (forall s p, self s = Ok p -> wfres p) -> forall items acc p,
+        wfres acc ->
+        (fix fold (items : list pyval) (acc : dslc A * cond A) : res (dslc A * cond A) :=
+           match items with
+           | [] => Ok acc
+           | i :: r =>
+               let* (ti, ci) := self i in
+               let* c := mk_bin o (snd acc) ci in
+               fold r (DBin o (fst acc) ti, c)
+           end) items acc = Ok p -> wfres p.
+      Proof.
+        intros Hs. induction items as [|i r IH]; intros acc p Hacc H; [injection H as <-; exact Hacc|].
+        bind_step H. destruct a as [ti ci]. bind_step H.
+        eapply IH; [|exact H]. apply Hs in Ha. unfold wfres in *. cbn [fst snd] in *.
+        cbn [build]. rewrite Hacc, Ha. cbn [bind]. exact Ha0.
+      Qed.
+
+      Lemma step_err spec e :
+        (forall u e, vdepth u < vdepth spec -> path_from_spec u = Err e -> P e) ->
+        (forall s e, vdepth s < vdepth spec -> self s = Err e -> P e) ->
+        cond_from_spec_step T X A lit mkpath inert path_from_spec self spec = Err e -> P e.
+      Proof.
+        intros Hp Hs H. unfold cond_from_spec_step in H.
+        destruct (negb (py_truthy spec)); [discriminate|].
+        destruct spec; try (injection H as <-; exact P_type).
+        destruct d as [|[k v] r]; [injection H as <-; exact P_cond|].
+        destruct k; destruct r; try (injection H as <-; exact P_cond).
+        change (vdepth (VDict [(VStr s, v)])) with (S (Nat.max (Nat.max 0 (vdepth v)) 0)) in Hp, Hs.
+        destruct (assoc_str s (sx_binops X)) as [o|].
+        - destruct v; try (injection H as <-; exact P_cond).
+          + eapply fold_err; [|exact H]. intros i e' Hi. apply Hs.
+            apply ldepth_in in Hi. rewrite vdepth_list. lia.
+          + eapply fold_err; [|exact H]. intros i e' Hi. apply Hs.
+            apply ldepth_in in Hi. rewrite vdepth_tuple. lia.
+        - eapply parse_leaf_err; [|exact H]. intros u e' Hu. apply Hp. lia.
+      Qed.
+
+      Lemma step_wf spec p :
+        (forall s p, self s = Ok p -> wfres p) ->
+        cond_from_spec_step T X A lit mkpath inert path_from_spec self spec = Ok p -> wfres p.
+      Proof.
+        intros Hs H. unfold cond_from_spec_step in H.
+        destruct (negb (py_truthy spec)); [injection H as <-; reflexivity|].
+        destruct spec; try discriminate.
+        destruct d as [|[k v] r]; [discriminate|].
+        destruct k; destruct r; try discriminate.
+        destruct (assoc_str s (sx_binops X)) as [o|].
+        - destruct v; try discriminate.
+          + eapply fold_wf; [exact Hs| |exact H]. reflexivity.
+          + eapply fold_wf; [exact Hs| |exact H]. reflexivity.
+        - eapply parse_leaf_wf; exact H.
+      Qed.
+    End StepFacts.
+
+    Lemma cond_from_spec_wf : forall fuel spec p,
+      cond_from_spec T X A lit mkpath inert path_from_spec fuel spec = Ok p -> wfres p.
+    Proof.
+      induction fuel as [|f IH]; intros spec p H; cbn [cond_from_spec] in H; [discriminate|].
+      eapply step_wf; [|exact H]. exact IH.
+    Qed.
+
+    (* all specs: the fuel may run out *)
+    Lemma cond_from_spec_err_all :
+      P RecursionError -> (forall u e, path_from_spec u = Err e -> P e) ->
+      forall fuel spec e, cond_from_spec T X A lit mkpath inert path_from_spec fuel spec = Err e -> P e.
+    Proof.
+      intros P_rec Hp. induction fuel as [|f IH]; intros spec e H; cbn [cond_from_spec] in H.
+      - injection H as <-. exact P_rec.
+      - eapply step_err; [| |exact H]; intros; eauto.
+    Qed.
+
+    (* specs shallower than the fuel *)
+    Lemma cond_from_spec_err_depth n :
+      (forall u e, vdepth u < n -> path_from_spec u = Err e -> P e) ->
+      forall fuel spec e, vdepth spec < fuel -> vdepth spec <= n ->
+      cond_from_spec T X A lit mkpath inert path_from_spec fuel spec = Err e -> P e.
+    Proof.
+      intros Hp. induction fuel as [|f IH]; intros spec e Hf Hn H; cbn [cond_from_spec] in H; [lia|].
+      eapply step_err; [| |exact H].
+      - intros u e' Hu. apply Hp. lia.
+      - intros s e' Hs. apply IH; lia.
+    Qed.
+  End CondFacts.
